@@ -349,6 +349,11 @@ PROPS['C11']['bounded'] = [B_MATCH]
 B_SERDE = B('serde', 'through serde_json (text with escapes and serde_json::Value): every string of the language-identifier token space (7 heads x <= 2 subtags of the '
                      'boundary-class alphabet) deserialises iff it parses, with an equal value; every parsed value serialises to its canonical string and back; 8 non-string JSON values are errors')
 PROPS['C19']['bounded'] = [B_SERDE]
+B_LIKELY = B('likely', 'LanguageIdentifier::maximize / minimize (the wrappers, real tables) on 16 languages x 10 scripts x 11 regions x {no variant, one variant}: returned '
+                      'flag == value changed, variants untouched, given subtags kept, all three filled, idempotence, minimize maximizes back (laws that need no reference data)')
+PROPS['C07']['bounded'] = [B_LIKELY]
+PROPS['C08']['bounded'] = [B_LIKELY]
+PROPS['C12']['bounded'] = [B_MUT, B_RT]
 PROPS['C10']['bounded'] = [B_MUT]
 PROPS['C04']['bounded'] = [B_RT, B_MUT]
 PROPS['C10']['standin'] = ['locale']
@@ -356,7 +361,6 @@ PROPS['C17']['bounded'] = [B_FP]
 PROPS['C17']['verus'] = PROPS['C17']['verus'] + LOC_RT + LID_RT
 PROPS['C17']['kani'] = PROPS['C17']['kani'] + [K('langid_leaf', h) for h in ['leaf_variant_ord_is_lex', 'leaf_language_ord_is_lex', 'leaf_script_ord_is_lex', 'leaf_region_ord_is_lex']]
 PROPS['C13']['standin'] = ['lid', 'locale']
-PROPS['C12']['bounded'] = [B_MUT]
 PROPS['C12']['verus'] = PROPS['C12']['verus'] + LOC_RT
 PROPS['C12']['verus'] = PROPS['C12']['verus'] + [V('langid', r'::vspec::lemma_(lid_ser_injective|lid_parse_ser|lid_roundtrip|strict_sorted_same_set|lid_expected_unique)$')]
 
